@@ -119,32 +119,42 @@ func c07families(thorough bool) []*c07family {
 			for _, mc := range c07retryConfs {
 				for rl := 0; rl <= 1; rl++ {
 					A := c07answersRed
-					if thorough && mc[0]+mc[1] <= 2 {
+					if thorough || mc[0]+mc[1] <= 1 {
 						A = c07answersFull
 					}
 					fs = append(fs, &c07family{kind: "avail", m: mc[0], c: mc[1], rl: rl, mode: mode, avail: av, method: "GET",
-						answers: A, verdicts: c07verdictsQ})
+						answers: A, verdicts: c07verdictsQ, big: rl == 1 && mc[0]+mc[1] >= 3 && len(A) == len(c07answersFull)})
 				}
 			}
 		}
 	}
 	// two sequential / two overlapping requests
 	seqConfs := [][2]int{{0, 0}, {1, 0}, {0, 1}, {1, 1}}
-	rls := []int{0}
 	if thorough {
-		seqConfs = append(seqConfs, [2]int{2, 0})
-		rls = []int{0, 1}
+		seqConfs = append(seqConfs, [2]int{2, 0}, [2]int{2, 1})
 	}
 	for _, mode := range []string{"WRR", "WLC"} {
 		for _, mc := range seqConfs {
-			for _, rl := range rls {
+			for rl := 0; rl <= 1; rl++ {
+				att := mc[0] + mc[1] + 1
+				if att == 4 && rl == 1 {
+					continue // 851^2 executions per family: beyond the thorough budget
+				}
+				if !thorough && att == 3 && rl == 1 {
+					continue // 211^2 executions per family: thorough only
+				}
+				A := c07answersRed
+				if thorough && att <= 2 {
+					A = c07answersFull
+				}
+				big := rl == 1 && att >= 2 && (att >= 3 || len(A) == len(c07answersFull))
 				fs = append(fs, &c07family{kind: "seq", m: mc[0], c: mc[1], rl: rl, mode: mode, avail: 7, method: "GET",
-					answers: c07answersRed, verdicts: c07verdictsQ})
+					answers: A, verdicts: c07verdictsQ, big: big})
 				fs = append(fs, &c07family{kind: "conc", m: mc[0], c: mc[1], rl: rl, mode: mode, avail: 7, method: "GET",
-					answers: c07answersRed, verdicts: c07verdictsQ, parkAt: 1})
-				if thorough && mc[0]+mc[1] >= 1 {
+					answers: A, verdicts: c07verdictsQ, parkAt: 1, big: big})
+				if thorough && att >= 2 {
 					fs = append(fs, &c07family{kind: "conc", m: mc[0], c: mc[1], rl: rl, mode: mode, avail: 7, method: "GET",
-						answers: c07answersRed, verdicts: c07verdictsQ, parkAt: 2})
+						answers: A, verdicts: c07verdictsQ, parkAt: 2, big: big})
 				}
 			}
 		}
@@ -193,22 +203,23 @@ type c07conn struct {
 }
 
 type c07world struct {
-	t       *testing.T
-	srv     *BfeServer
-	fam     *c07family
-	env     *h1env
-	mu      sync.Mutex
-	ch      *vk.Chooser
-	backs   map[string]*backend.BfeBackend // by name
-	byAddr  map[string]string              // addr:port -> name
-	reqs    map[string]*c07req
-	assign  map[string]string // tag -> backend name the request is in flight on
-	events  []string
-	viol    *c07viol
-	parkAt  map[string]int
-	parked  string // tag parked inside RoundTrip
-	release chan struct{}
-	conns   []*c07conn
+	t          *testing.T
+	srv        *BfeServer
+	fam        *c07family
+	env        *h1env
+	mu         sync.Mutex
+	ch         *vk.Chooser
+	backs      map[string]*backend.BfeBackend // by name
+	byAddr     map[string]string              // addr:port -> name
+	reqs       map[string]*c07req
+	assign     map[string]string // tag -> backend name the request is in flight on
+	events     []string
+	viol       *c07viol
+	parkAt     map[string]int
+	parked     string // tag parked inside RoundTrip
+	release    chan struct{}
+	conns      []*c07conn
+	panics0    int64 // value of ProxyState.PanicClientConnServe when the execution started
 	harnessErr string
 }
 
@@ -473,7 +484,8 @@ func (w *c07world) completed(tag string, c *c07conn) string {
 	if status == "no-response" && !c.isClosed() {
 		w.harnessErr = fmt.Sprintf("request %s neither answered nor connection closed at quiescence (out=%q)", tag, out)
 	}
-	w.events = append(w.events, fmt.Sprintf("%s: completed (%s, conn closed=%v)", tag, status, c.isClosed()))
+	np := w.srv.serverStatus.ProxyState.PanicClientConnServe.Get() - w.panics0
+	w.events = append(w.events, fmt.Sprintf("%s: completed (%s, conn closed=%v, panics recovered by conn.serve so far=%d)", tag, status, c.isClosed(), np))
 	w.check("after-request", q)
 	oc := status
 	switch {
@@ -486,6 +498,9 @@ func (w *c07world) completed(tag string, c *c07conn) string {
 	}
 	if status == "no-response" {
 		oc += "/conn-closed"
+	}
+	if np > 0 {
+		oc += "/panic"
 	}
 	return oc
 }
@@ -540,6 +555,7 @@ func c07exec(t *testing.T, srv *BfeServer, f *c07family, ch *vk.Chooser) c07resu
 	w := &c07world{srv: srv, fam: f, ch: ch, backs: backs, byAddr: byAddr,
 		reqs: map[string]*c07req{}, assign: map[string]string{}, parkAt: map[string]int{}}
 	var res c07result
+	w.panics0 = srv.serverStatus.ProxyState.PanicClientConnServe.Get()
 	c07cur = w
 	defer func() { c07cur = nil }()
 	synctest.Test(t, func(t *testing.T) {
